@@ -30,11 +30,18 @@ func VH_CONC() {
 	for i := range vals {
 		vals[i] = []byte{vf.Byte(fmt.Sprintf("v%d", i))}
 	}
+	// pairwise distinct values make it observable which commit a read saw
+	for i := range vals {
+		for j := 0; j < i; j++ {
+			vf.Assume(vals[i][0] != vals[j][0])
+		}
+	}
 	shared := make([][]byte, nw)
 	for i := range shared {
 		shared[i] = []byte{vf.Byte(fmt.Sprintf("s%d", i))}
 	}
 	done := make(chan int, nw)
+	firstAck := make(chan struct{}, nw*nc)
 	errs := make([]error, nw*nc)
 	for w := 0; w < nw; w++ {
 		w := w
@@ -51,9 +58,16 @@ func VH_CONC() {
 					}
 					return nil
 				})
+				if w == 0 && c == 0 {
+					firstAck <- struct{}{}
+				}
 			}
 			done <- w
 		}()
+	}
+	afterAck := vf.Param("AFTERACK", 0) == 1
+	if afterAck {
+		<-firstAck // the reader begins after writer 0's first commit was acknowledged
 	}
 
 	// the reader: one transaction, reads writer 0's key and the shared key
@@ -83,6 +97,10 @@ func VH_CONC() {
 		}
 	}
 	vf.Assert("C12.reader.a-is-a-committed-value", okA)
+	if afterAck {
+		// it began after an acknowledged commit of a: it must see that value or a later one
+		vf.Assert("C12.reader.sees-acknowledged", oka)
+	}
 	if nw == 1 {
 		if oks {
 			vf.Assert("C12.reader.s-value", vf.BytesEq(gs, shared[0]))
@@ -122,4 +140,71 @@ func VH_CONC() {
 	})
 	db2.Close()
 	vf.Cover("CONC.end")
+}
+
+// VH_CONC2: two read-modify-write transactions on the same key run on two goroutines while
+// the harness goroutine reads; strict serializability of the outcome (C06), exactness of
+// the conflict decision (C07) and race freedom of the commit path (C12) under every explored
+// schedule.  Params: MEMTHR (small: rotations during the commits), IBMAX.
+func VH_CONC2() {
+	logger.SetLogger(vlog{})
+	cfg := Config{SkipListMaxLevel: 2, SkipListP: 0.5, MemtableByteThreshold: vf.Param("MEMTHR", 1000),
+		ImmutableBuffer: vf.Choose("ib", 0, vf.Param("IBMAX", 0)), DataBlockByteThreshold: 1, L0TargetNum: 1, LevelRatio: 1}
+	db, err := Open(vf.Dir(), cfg)
+	vf.Assert("CONC2.open", err == nil)
+	v0 := []byte{vf.Byte("v0")}
+	vf.Assert("CONC2.init", db.Update(func(txn *Txn) error { return txn.Set("x", v0) }) == nil)
+	vals := [][]byte{{vf.Byte("va")}, {vf.Byte("vb")}}
+	// distinct values make the serial order observable
+	vf.Assume(vf.And(vf.And(vals[0][0] != vals[1][0], vals[0][0] != v0[0]), vals[1][0] != v0[0]))
+
+	type res struct {
+		read []byte
+		ok   bool
+		err  error
+	}
+	out := make([]res, 2)
+	done := make(chan int, 2)
+	for g := 0; g < 2; g++ {
+		g := g
+		go func() {
+			txn := db.Begin(true)
+			out[g].read, out[g].ok = txn.Get("x")
+			_ = txn.Set("x", vals[g])
+			out[g].err = txn.Commit()
+			done <- g
+		}()
+	}
+	<-done
+	<-done
+	var final []byte
+	var fok bool
+	_ = db.View(func(txn *Txn) error { final, fok = txn.Get("x"); return nil })
+	vf.Assert("C06.conc.final-found", fok)
+
+	ca, cb := out[0].err == nil, out[1].err == nil
+	for g := 0; g < 2; g++ {
+		vf.Assert("C07.conc.error-kind", out[g].err == nil || out[g].err == ErrConflictTxn)
+		// every read is a committed value: the initial one or the other transaction's
+		vf.Assert("C05.conc.read-committed", vf.And(out[g].ok, vf.Or(vf.BytesEq(out[g].read, v0), vf.BytesEq(out[g].read, vals[1-g]))))
+	}
+	// the first transaction to validate has nothing to conflict with
+	vf.Assert("C07.conc.not-both-refused", ca || cb)
+	switch {
+	case ca && cb:
+		// a serial order must exist: the second one read the first one's write
+		aThenB := vf.And(vf.BytesEq(out[0].read, v0), vf.And(vf.BytesEq(out[1].read, vals[0]), vf.BytesEq(final, vals[1])))
+		bThenA := vf.And(vf.BytesEq(out[1].read, v0), vf.And(vf.BytesEq(out[0].read, vals[1]), vf.BytesEq(final, vals[0])))
+		vf.Assert("C06.conc.serial-order-exists", vf.Or(aThenB, bThenA))
+		vf.Cover("CONC2.both-committed")
+	case ca:
+		vf.Assert("C06.conc.single-winner", vf.And(vf.BytesEq(out[0].read, v0), vf.BytesEq(final, vals[0])))
+		vf.Cover("CONC2.conflict")
+	case cb:
+		vf.Assert("C06.conc.single-winner", vf.And(vf.BytesEq(out[1].read, v0), vf.BytesEq(final, vals[1])))
+		vf.Cover("CONC2.conflict")
+	}
+	vDrain(db)
+	db.Close()
+	vf.Cover("CONC2.end")
 }
